@@ -77,6 +77,9 @@ def ckOp (buffered : Bool) (op : String) (res : String) (ds dd : Nat) (dgs : Lis
     (accSent accDropped : Nat × Nat) (seen : List String) : Option Viol :=
   if res == "panic" then some ⟨"C20", "a socket sink call panicked"⟩ else
   if res == "blocked" then some ⟨"C13", "a socket sink call did not return (blocked for 3 s on a socket whose peer keeps reading)"⟩ else
+  if buffered && (op.startsWith "e" || op.startsWith "g") && res.startsWith "ok" &&
+      res ≠ s!"ok{(if op.startsWith "e" then (unhex (op.drop 1).toString).length else (op.drop 1).toString.toNat?.getD 0)}" then
+    some ⟨"C06+C05+C13", "a buffered emit acknowledged a byte count other than the metric's length (a truncated or partial send)"⟩ else
   if buffered && res.startsWith "ok" && dd > 0 then
     some ⟨"C06+C07+C12", "the call returned Ok although a send attempted during it was refused by the socket"⟩ else
   if !buffered && (op.startsWith "e" || op.startsWith "g") then
@@ -180,15 +183,18 @@ def runSock (prop : String) (f : List String) (obsS : String) : Verdict :=
             | _ => ⟨.ok 0, []⟩
           match ckLife c [] opsRun (implObs ++ [dropObs]) with
           | .ok _ => none
-          | .error e => some ⟨if e.prop == "C05" || e.prop == "C06" then "C13" else e.prop, "on the wire: " ++ e.clause⟩
+          | .error e => some ⟨if e.prop == "C05" || e.prop == "C06" then "C13+" ++ e.prop else e.prop, "on the wire: " ++ e.clause⟩
         else none
     let proj (x : String) : String :=
       match prop with
       | "C14" => joinWith ";" ((x.splitOn ";").map fun o => match o.splitOn "/" with
           | [r, d, _] => (if r.startsWith "S" then r else "") ++ "/" ++ d
           | _ => o)
-      | "C13" => joinWith ";" ((x.splitOn ";").map fun o => match o.splitOn "/" with
+      | "C13" | "C05" => joinWith ";" ((x.splitOn ";").map fun o => match o.splitOn "/" with
           | [r, _, g] => (if r.startsWith "S" then "" else r) ++ "/" ++ g
+          | _ => o)
+      | "C19" => joinWith ";" ((x.splitOn ";").map fun o => match o.splitOn "/" with
+          | [_, _, g] => if g == "~" then "0" else toString (g.splitOn ",").length
           | _ => o)
       | _ => x
     ⟨proj iAll == proj mAll, proj iAll, proj mAll, v2.map (fun e => (e.prop, e.clause)),
